@@ -49,8 +49,12 @@ func WalkNodes(root *html.Node, fnVisit func(*html.Node) bool, fnExit func(*html
 		return
 	}
 
-	for child := root.FirstChild; child != nil; child = child.NextSibling {
+	// The visitor may detach or replace the child it is given, so fetch
+	// the next sibling before visiting the child.
+	for child := root.FirstChild; child != nil; {
+		next := child.NextSibling
 		WalkNodes(child, fnVisit, fnExit)
+		child = next
 	}
 
 	if fnExit != nil {
